@@ -58,6 +58,10 @@ func (r *Runtime) functionproto_toString(call FunctionCall) Value {
 	case funcObjectImpl:
 		return f.source()
 	case *proxyObject:
+		// the target of a revoked proxy is nil
+		if f.target == nil {
+			break
+		}
 		if _, ok := f.target.self.(funcObjectImpl); ok {
 			return asciiString("function () { [native code] }")
 		}
